@@ -57,7 +57,6 @@ class LabSetup:
         self.timeaxis = None
         self.freqaxis = None
                         
-        self.F4eM4 = None
         self.e = None
         
         self.has_polarizations = False
@@ -462,15 +461,8 @@ class LabSetup:
                 self.e[i,:] = pulse_polarizations[i]
             self.e[3,:] = detection_polarization
             
-            e = self.e
-            
-            F4e = numpy.zeros(3)
-            F4e[0] = numpy.dot(e[3,:],e[2,:])*numpy.dot(e[1,:],e[0,:])
-            F4e[1] = numpy.dot(e[3,:],e[1,:])*numpy.dot(e[2,:],e[0,:])
-            F4e[2] = numpy.dot(e[3,:],e[0,:])*numpy.dot(e[2,:],e[1,:])
-            
-            self.F4eM4 = numpy.dot(F4e,self.M4)
-            
+            # (the vector F4eM4 for orientational averaging is derived from 
+            # the polarizations whenever it is read)
             
         else:
             text = "pulse_polarizations requires "+ \
@@ -478,6 +470,35 @@ class LabSetup:
             raise Exception(text)
             
         self.detection_polarization = detection_polarization
+
+     
+    @property
+    def F4eM4(self):
+        """Vector for orientational averaging of the four polarizations
+        
+        It is calculated from the polarizations the object holds at the time
+        of the request (they can be changed through the LabField objects
+        or by writing into the array `e`).
+        
+        """
+        e = self.e
+        if (e is None) or (numpy.shape(e)[0] < 4):
+            # detection polarization not set yet
+            return None
+        
+        F4e = numpy.zeros(3)
+        F4e[0] = numpy.dot(e[3,:],e[2,:])*numpy.dot(e[1,:],e[0,:])
+        F4e[1] = numpy.dot(e[3,:],e[1,:])*numpy.dot(e[2,:],e[0,:])
+        F4e[2] = numpy.dot(e[3,:],e[0,:])*numpy.dot(e[2,:],e[1,:])
+        
+        return numpy.dot(F4e,self.M4)
+
+
+    @F4eM4.setter
+    def F4eM4(self, value):
+        # kept so that objects saved with the attribute can be loaded: 
+        # the vector is derived from the polarizations on every read
+        pass
 
      
     def get_pulse_polarizations(self):
